@@ -431,7 +431,7 @@ PROPS = {
     "C18": {
         "level": "proof",
         "extract": ["IdlGrammar", "SigGrammar", "IdlPackage"],
-        "extra_modules": ["QiVerif.Lemmas.Idl", "QiVerif.Lemmas.IdlLines", "QiVerif.Props.C18Lines", "QiVerif.Props.C18Scope",
+        "extra_modules": ["QiVerif.Props.C18Clash", "QiVerif.Lemmas.Idl", "QiVerif.Lemmas.IdlLines", "QiVerif.Props.C18Lines", "QiVerif.Props.C18Scope",
                           "QiVerif.Props.C18Package", "QiVerif.Tie.C18Package", "QiVerif.Props.C18TypeSet", "QiVerif.Tie.C18TypeSet", "QiVerif.Props.C18EndToEnd"],
         "rule": "type texts (600, thorough 6000: nested Vec / Map / Tuple over the 15 basic keywords, declared, undeclared and "
                 "template-named references, near-keywords such as strx / int7 / anything, empty and broken texts, white "
